@@ -45,6 +45,6 @@ PROPERTY = {
         Harness("c17_canary_string_reads_blob", "C17.kani.canary", "PROVED-C", "a false claim must be refuted", crate="scylla-cql-core", carries=False, canary=True),
     ],
     "trusted_base": ["error-renaming helpers typck_error_replace_rust_name / fix_rust_name_in_err stubbed by identity in the matrix harnesses (type Error -> Error: cannot change accept/refuse)", "parametricity of the generic container impls in their element type (checked with i32/String elements)", "Verus/Z3 soundness", "SerializeValue::serialize trait contract (assumed for impls)", "Vec::resize truncation", "i32::to_be_bytes"],
-    "assumptions": [],
-    "not_covered": ["carriers behind optional cargo features (chrono, time, num-bigint, bigdecimal, secrecy)", "container carriers (Vec/HashMap/tuples/Option/Box...) delegating to their element's type check: their error-rewriting paths exceed CBMC here (measured >15 GB)", "third-party impls of SerializeValue"],
+    "assumptions": ["Kani stubs in the matrix harnesses: typck_error_replace_rust_name / fix_rust_name_in_err by the identity and the two mk_typck_err_named constructors by constructors that do not deep-copy the column type (all of type ... -> Error: cannot change accept/refuse)", "parametricity of the generic container impls in their element type"],
+    "not_covered": ["carriers behind optional cargo features (chrono, time, num-bigint, bigdecimal, secrecy)", "HashMap/HashSet carriers (std hashing is out of CBMC's reach; BTreeMap/BTreeSet/Vec share the element delegation)", "binding of sequences/maps/tuples (the sequence writer's paths exceed CBMC; the cell/row writers are proved in the C01 unit)", "UDT carriers (derive macros: C16)", "third-party impls of SerializeValue"],
 }
